@@ -12,7 +12,10 @@
                                      through the same codec | (0) that failed
      (4 hdr mode command arg)        request bound to a recording endpoint; mode 0 ReplyWith
                                      (command, body arg), 1 RefuseWith(command, ec), 2 Refuse(ec)
-        observed (1 nsent hdr body errno) | (0) panicked
+                                     4 ReplyWith(command, gov arg: any Go value SetBody supports)
+        observed (1 nsent hdr body errno rBytes) | (0) panicked
+     (6 flg gov)                     packet.New(7, 1, flg, gov), then every accessor
+        observed as scenario 0
      (5 codec hdr gov registered valid)   through codec V<codec> (no compression, no cipher),
                                      then Decode() on the receiver; registered = a message type
                                      is registered under hdr's command, valid = proto.Unmarshal
@@ -234,7 +237,7 @@ Definition check_wire (codec thr : Z) (enc : bool) (h : hdr) (ec : option Z) (g 
 
 (* ---- scenario 4: reply / refuse ----------------------------------------------------- *)
 Definition check_reply (h : hdr) (mode command : Z) (argb : body) (argec : Z)
-           (obs : option (Z * hdr * option body * Z)) : verdict :=
+           (obs : option (Z * hdr * option body * Z * option (list Z))) : verdict :=
   let p := pkt_of_hdr h BNil (Some 1) in
   (* modes 2 and 3 consult the message registry: its answer travels in the command slot *)
   let m := if mode =? 0 then reply_with p command argb
@@ -245,12 +248,15 @@ Definition check_reply (h : hdr) (mode command : Z) (argb : body) (argec : Z)
                   else if command =? 0 then hcmd h else command in
   match m, obs with
   | None, None => VOk
-  | Some (e, q), Some (nsent, oh, ob, oerrno) =>
+  | Some (e, q), Some (nsent, oh, ob, oerrno, orb) =>
       let corr :=
         vjoin (check_that ((e =? 1) && (nsent =? 1)) (VMismatch 11))
        (vjoin (check_that (hdr_eqb (hdr_of_pkt q) oh) (VMismatch 12))
        (vjoin (check_that (obody_eqb (pbody q) ob) (VMismatch 13))
-              (check_that (errno q =? oerrno) (VMismatch 14)))) in
+       (vjoin (check_that (errno q =? oerrno) (VMismatch 14))
+              (check_that (ol_eqb (Some (body_to_bytes (pbody q))) orb) (VMismatch 21))))) in
+      (* the packet handed to the endpoint "always has a wire form" *)
+      let wired := check_that (match orb with Some _ => true | None => false end) (VPropFail 3) in
       let copied := (nsent =? 1) && (hseq oh =? hseq h) && (htyp oh =? htyp h) &&
                     (hnode oh =? hnode h) && zlist_eqb (hrefs oh) (hrefs h) in
       let prop :=
@@ -258,7 +264,7 @@ Definition check_reply (h : hdr) (mode command : Z) (argb : body) (argec : Z)
         then check_that (copied && (hcmd oh =? want_cmd) && obody_eqb argb ob) (VPropFail 6)
         else check_that (copied && (hcmd oh =? want_cmd) &&
                          has_flag (hflg oh) root_PFlagError && (oerrno =? argec)) (VPropFail 7) in
-      vjoin prop corr
+      vjoin (vjoin prop wired) corr
   | _, _ => VMismatch 11
   end.
 
@@ -267,6 +273,12 @@ Definition check (c : sx) : verdict :=
   (* the library panicked outside the calls whose panic is an outcome of its own *)
   | SList [SList _; SList [SInt (-1)]] => VPropFail 8
   | SList [SList [SInt 0; g]; SList [ob; ri; rf; rs; rb]] =>
+      match gov_of g, body_of ob, rint_of ri, rint_of rf, rbytes_of rs, rbytes_of rb with
+      | Some (g, wide), Some ob, Some ri, Some rf, Some rs, Some rb => check_body g wide ob ri rf rs rb
+      | _, _, _, _, _, _ => VBad
+      end
+  | SList [SList [SInt 6; SInt f; g]; SList [ob; ri; rf; rs; rb]] =>
+      (* packet.New(7, 1, f, value): the body must behave as after SetBody(value) *)
       match gov_of g, body_of ob, rint_of ri, rint_of rf, rbytes_of rs, rbytes_of rb with
       | Some (g, wide), Some ob, Some ri, Some rf, Some rs, Some rb => check_body g wide ob ri rf rs rb
       | _, _, _, _, _, _ => VBad
@@ -329,10 +341,10 @@ Definition check (c : sx) : verdict :=
           let obs' :=
             match obs with
             | SList [SInt 0] => Some None
-            | SList [SInt 1; SInt nsent; oh; ob; SInt oerrno] =>
-                match hdr_of oh, body_of ob with
-                | Some oh, Some ob => Some (Some (nsent, oh, ob, oerrno))
-                | _, _ => None
+            | SList [SInt 1; SInt nsent; oh; ob; SInt oerrno; orb] =>
+                match hdr_of oh, body_of ob, rbytes_of orb with
+                | Some oh, Some ob, Some orb => Some (Some (nsent, oh, ob, oerrno, orb))
+                | _, _, _ => None
                 end
             | _ => None
             end in
@@ -352,6 +364,12 @@ Definition check (c : sx) : verdict :=
                 match gov_of arg with
                 | Some (GProto m, _) => check_reply h 3 command (BProto m) 0 obs'
                 | _ => VBad
+                end
+              else if mode =? 4 then
+                (* ReplyWith(command, any supported Go value): behaves as mode 0 on the normalised body *)
+                match gov_of arg with
+                | Some (g, wide) => check_reply h 0 command (set_body (no_oracle wide) g) 0 obs'
+                | None => VBad
                 end
               else VBad
           | None => VBad
